@@ -248,3 +248,158 @@ def apply_edit(root, e, iv):
         return None
     except Exception as ex:   # the harness reports it; generators keep edits legal
         return type(ex).__name__ + ": " + str(ex)[:80]
+
+
+# ---------------------------------------------------------------- call history (read-only API) and class-level state
+
+import contextlib
+import inspect
+import os
+
+# methods that change the tree or need arguments that matter; everything else that is public
+# and callable without arguments is a read-only helper and is part of the call history
+MUTATORS = {
+    "encode", "append_child", "insert_child", "remove_child", "replace_child", "update_size", "set_children",
+    "add_field", "remove_field", "update", "apply_defaults", "trigger_change", "lazy_load", "post_encode",
+    "post_encode_all", "encode_fields", "encode_box_fields", "output_box_fields", "load", "parse", "fromJSON",
+    "clear", "pop", "popitem", "setdefault", "remove_descriptor", "parse_samples", "atom_changed", "main",
+    "walk_atoms", "show_atom", "clone_from_senc", "from_kwargs", "parse_header", "parse_payload",
+}
+FIXED_OPS = ["repr", "str", "as_python", "toJSON", "toJSON-pure", "toJSON-exclude", "len", "iter", "contains",
+             "find_child", "index", "children"]
+
+
+def argless_methods(obj) -> list[str]:
+    """public methods of the object's class that can be called without arguments"""
+    out = []
+    for name in sorted(dir(type(obj))):
+        if name.startswith("_") or name in MUTATORS:
+            continue
+        fn = getattr(type(obj), name, None)
+        if not callable(fn) or isinstance(fn, type):
+            continue
+        try:
+            sig = inspect.signature(getattr(obj, name))
+        except (TypeError, ValueError):
+            continue
+        if all(p.default is not p.empty or p.kind in (p.VAR_POSITIONAL, p.VAR_KEYWORD)
+               for p in sig.parameters.values()):
+            out.append(name)
+    return out
+
+
+def gen_calls(rng, limit: int = 5) -> list:
+    """a seeded sequence of read-only calls: (box selector, operation, argument)"""
+    if rng.random() < .35:
+        return []
+    out = []
+    for _ in range(rng.randrange(1, limit + 1)):
+        if rng.random() < .6:
+            out.append([rng.randrange(1000), rng.choice(FIXED_OPS), rng.randrange(1000)])
+        else:
+            out.append([rng.randrange(1000), "method", rng.randrange(1000)])
+    return out
+
+
+def boxes_as_they_are(wrapper) -> list:
+    """the boxes reachable through the public `children` property (lazy boxes stay lazy until a
+    call needs them)"""
+    out = []
+
+    def rec(a, depth):
+        out.append(a)
+        if depth > 12:
+            return
+        try:
+            kids = list(a.children or [])
+        except Exception:
+            kids = []
+        for c in kids:
+            rec(c, depth + 1)
+    for top in list(wrapper.children):
+        rec(top, 0)
+    return out
+
+
+def run_calls(wrapper, calls) -> int:
+    """perform the read-only calls; what they return (or raise) is not judged – only what the
+    checked operations do afterwards.  Returns the number of calls that raised."""
+    if not calls:
+        return 0
+    raised = 0
+    with open(os.devnull, "w") as null, contextlib.redirect_stdout(null):
+        for sel, op, arg in calls:
+            boxes = boxes_as_they_are(wrapper)
+            if not boxes:
+                return raised
+            a = boxes[sel % len(boxes)]
+            try:
+                if op == "repr":
+                    repr(a)
+                elif op == "str":
+                    str(a)
+                    "%s" % (a,)
+                elif op == "as_python":
+                    a.as_python()
+                elif op == "toJSON":
+                    a.toJSON()
+                elif op == "toJSON-pure":
+                    a.toJSON(pure=True)
+                elif op == "toJSON-exclude":
+                    a.toJSON(exclude=set())
+                elif op == "len":
+                    len(a)
+                elif op == "iter":
+                    list(iter(a))
+                elif op == "contains":
+                    "size" in a
+                elif op == "children":
+                    list(a.children or [])
+                elif op in ("find_child", "index"):
+                    t = boxes[arg % len(boxes)].atom_type
+                    (a.find_child(t) if op == "find_child" else a.index(t))
+                elif op == "method":
+                    names = argless_methods(a)
+                    if names:
+                        getattr(a, names[arg % len(names)])()
+            except Exception:
+                raised += 1
+    return raised
+
+
+def _canon(v, depth=0):
+    if isinstance(v, (set, frozenset)):
+        return ["set"] + sorted(repr(x) for x in v)
+    if isinstance(v, dict):
+        return ["dict"] + sorted((repr(k), _canon(x, depth + 1) if depth < 2 else type(x).__name__) for k, x in v.items())
+    if isinstance(v, (list, tuple)):
+        return ["list"] + [_canon(x, depth + 1) if depth < 2 else type(x).__name__ for x in v]
+    if isinstance(v, type):
+        return "class " + v.__name__
+    if isinstance(v, (int, str, bytes, bool, float)) or v is None:
+        return repr(v)
+    inner = getattr(v, "clazz", None)          # ListOf(X)
+    return type(v).__name__ + ("(" + getattr(inner, "__name__", "?") + ")" if inner is not None else "")
+
+
+def class_state() -> dict:
+    """every class-level mutable attribute (set / dict / list) of the classes of the mp4 module and of
+    its base classes, plus the registries – a class-level default must not drift while the library is used"""
+    m = mp4()
+    from dashlive.utils import object_with_fields, binary
+    classes = {}
+    for mod in (m, object_with_fields, binary):
+        for name, c in vars(mod).items():
+            if isinstance(c, type):
+                classes[f"{c.__module__}.{c.__name__}"] = c
+    out = {}
+    for cname, c in sorted(classes.items()):
+        for attr, v in vars(c).items():
+            if attr.startswith("__"):
+                continue
+            if isinstance(v, (set, dict, list)):
+                out[f"{cname}.{attr}"] = json.dumps(_canon(v), sort_keys=True)
+    out["fourcc.BOXES"] = json.dumps(sorted(m.fourcc.BOXES))
+    out["fourcc.BOX_TYPES"] = json.dumps(sorted(m.fourcc.BOX_TYPES))
+    out["mp4descriptor.DESCRIPTORS"] = json.dumps(sorted(m.mp4descriptor.DESCRIPTORS))
+    return out
